@@ -13,6 +13,11 @@ from simkit.core import Unsimulated
 INF = float('inf')
 
 
+class Cancelled(BaseException):
+    """The blocking socket call was cancelled from outside (KeyboardInterrupt, gevent.Timeout,
+    GreenletExit ...): a BaseException raised once by a scripted recv()/send() call."""
+
+
 class StepCapExceeded(BaseException):
     """The code under test made more socket calls than any correct run can need."""
 
@@ -181,6 +186,8 @@ class SimSocket:
         if e is not None:
             self.errors_raised += 1
             self.log.add('recv', n, 'errno', e)
+            if e == 0:
+                raise Cancelled('simulated cancellation inside recv()')
             raise OSError(e, 'simulated transient socket error')
         self._pump()
         while not self.inq and not self.peer_closed:
@@ -216,6 +223,8 @@ class SimSocket:
         if e is not None:
             self.errors_raised += 1
             self.log.add('send', len(data), 'errno', e)
+            if e == 0:
+                raise Cancelled('simulated cancellation inside send()')
             raise OSError(e, 'simulated transient socket error')
         self._pump()
         if not data:
